@@ -94,6 +94,7 @@ typedef struct {
 #define GC_ALLOW_EMPTY 1   /* links with 0 samples / tiny links */
 #define GC_MULTICH     2   /* 3..8 channel links occasionally */
 #define GC_MANAGED     4   /* managed-mode links occasionally */
+#define GC_BIGPAGES    8   /* occasionally a many-channel high-quality link whose pages approach 64 KiB */
 void gen_chain(rng_t *r, int maxlinks, long maxN, int flags, chaindesc_t *d);
 int  build_chain(const chaindesc_t *d, buf_t *out, size_t *link_off /*nlinks+1 or NULL*/);
 void chain_describe(const chaindesc_t *d, char *out, size_t n);
